@@ -194,6 +194,15 @@ class Ctx:
         self.obs.append(rec)
         return ok
 
+    def structural(self, label, kind, ok, witness=None, note=""):
+        """an obligation decided by RECOGNISING a code shape (loop header, call pattern, statement text): if the shape is
+        there, it is discharged; if it is not, nothing is known about the behaviour -- undecided (exit 2), never a violation
+        (a renamed local or a restructured loop must not raise an alarm)"""
+        if ok:
+            return self.decided(label, kind, True, witness=witness, note=note)
+        self.undecided(label, kind, "code shape not recognised (%s): the obligation is not decided" % (witness,))
+        return False
+
     def undecided(self, label, kind, why):
         self.obs.append({"id": self.oid(label), "kind": kind, "verdict": solve.Verdict.UNKNOWN,
                          "backend": "-", "seconds": 0.0, "lineno": None, "note": why, "known": None,
